@@ -862,7 +862,8 @@ def x_instr_dump(co, opc, max_code=None, dup_lines=False):
             instrs.append({"o": ins.offset, "op": op, "n": ins.opname, "a": ins.arg, "k": kind,
                            "v": argval, "j": bool(ins.is_jump_target), "l": ins.starts_line,
                            "sz": ins.inst_size, "x": bool(ins.has_extended_arg),
-                           "ha": bool(ins.has_arg), "ot": ins.optype})
+                           "ha": bool(ins.has_arg), "ot": ins.optype,
+                           "r": ins.argrepr if (ins.argrepr is None or isinstance(ins.argrepr, str)) else str(ins.argrepr)})
         res["instrs"] = instrs
         if getattr(bc, "exception_entries", None) is not None:
             res["exc"] = [[e.start, e.end, e.target, e.depth, bool(e.lasti)]
